@@ -22,6 +22,9 @@ ASSUMPTIONS = ["np.log, np.clip, float have their usual meaning"]
 
 
 def run(ck, an, tier):
+    from rules import C04 as _c04x, ledger as _ledgerx
+    from sa.report import Renamed as _Rx
+    _c04x.env_side(_ledgerx._Only(_Rx(ck, "C04:"), {"batches-not-mutated", "latent-batch-consumed"}), an)      # every episode is delivered the same quotes: the batches are the transmitter's own lists and are never emptied in place
     from sa.report import Renamed
     from rules import C06, C13
     C06.s7(Renamed(ck, "C06:"), an)       # the interest recorded is the interest actually accrued, once, at the request's time
